@@ -74,6 +74,7 @@ type VC struct {
 	recs     map[string]*recInfo
 	replay   *replayPlan
 	replayGlobalsFrom int
+	opaque   []string // pure functions whose contract axioms are withheld in this unit
 }
 
 type epochSrc struct {
@@ -351,6 +352,10 @@ func (vc *VC) oblige(kind, name, guard, goal, src string, line int) *Obl {
 	return o
 }
 
+// bodyMarker separates the background theory (prelude, type declarations, literals, global axioms) from the facts of
+// the unit itself in a query; see liteQuery.
+const bodyMarker = "; --- body ---"
+
 // query text for an obligation
 func (vc *VC) queryFor(o *Obl) string {
 	var sb strings.Builder
@@ -372,6 +377,7 @@ func (vc *VC) queryFor(o *Obl) string {
 		sb.WriteString(d)
 		sb.WriteByte('\n')
 	}
+	sb.WriteString(bodyMarker + "\n")
 	for _, d := range vc.lines[:o.Pos] {
 		sb.WriteString(d)
 		sb.WriteByte('\n')
